@@ -21,13 +21,14 @@ def dataset(rng, f):
 def build(rng, facts, name):
     spec = rng.choice([s for s in sorted(facts) if facts[s]["kind"] == "log"] if rng.random() < 0.3 else sorted(facts)); f = facts[spec]
     b = Builder(name); kp, kn = rng.choice(KINDS), rng.choice(KINDS); collapsing = ":" in kp or ":" in kn
-    b.knew("k", spec, kp, kn)
+    exact = rng.random() < 0.3          # "for any sketch": both variants (the exact one answers count/min/max from its statistics)
+    b.knew("k", spec, kp, kn, exact)
     shape, vals = dataset(rng, f); b.meta = {"shape": shape}
     for v in vals: b.kadd("k", v, rng.choice([None, None, 2.0, 0.5, 3.0]))
     # history: merge / copy / clear / decode
     h = rng.choice(["none", "merge", "copy", "clear-refill", "decode"])
     if h == "merge":
-        b.knew("o", spec, rng.choice(STORES), rng.choice(STORES))
+        b.knew("o", spec, rng.choice(STORES), rng.choice(STORES), exact)
         for v in dataset(rng, f)[1][:6]: b.kadd("o", v)
         b.kmerge("k", "o")
     elif h == "copy":
@@ -47,7 +48,10 @@ def build(rng, facts, name):
         if (fld["empty"] == "1") != (W == 0): return "empty=%s but absorbed weight is %s" % (fld["empty"], W)
         if W == 0: return None if fld["min"] == "-" and fld["max"] == "-" else "min/max defined on an empty sketch"
         if collapsing: return None          # clamped extremes are C05's subject
-        for nm, x in (("min", xs[0][0]), ("max", xs[-1][0])):
+        ext = (xs[0][0], xs[-1][0])
+        if exact:          # the exact variant reports the true extremes themselves (sub-minimum magnitudes included), not the zero bucket's 0
+            pos = [Fraction(v) for v, w in snap if w > 0]; ext = (min(pos), max(pos))
+        for nm, x in (("min", ext[0]), ("max", ext[1])):
             y = parse_F(fld[nm])
             if abs(y - x) > (al + EPS_FP) * abs(x): return "%s=%s is not within alpha of the true extreme %s" % (nm, fld[nm], float(x))
         return None
